@@ -1889,12 +1889,20 @@ func (h *fsmHandler) recvMessageloop(ctx context.Context, conn net.Conn, holdtim
 					useRevisedError := h.fsm.isTreatAsWithdraw
 
 					var validationErr error
-					if handling == bgp.ERROR_HANDLING_NONE {
+					// After an attribute-discard decoding error the malformed
+					// attributes are gone and the rest is fully decoded, so the
+					// message still has to pass validation (RFC 7606 Section 3:
+					// e.g. a missing mandatory attribute is treat-as-withdraw).
+					// After a treat-as-withdraw decoding error the list may hold
+					// half-decoded attributes and is not validated.
+					if handling == bgp.ERROR_HANDLING_NONE || handling == bgp.ERROR_HANDLING_ATTRIBUTE_DISCARD {
 						ok, ve := bgp.ValidateUpdateMsg(body, rfMap, h.fsm.isEBGP, h.fsm.isConfed, h.allowLoopback)
 						if !ok {
-							validationErr = ve
-							handling = h.handlingError(m, ve, useRevisedError)
-							fmsg.handling = handling
+							if vh := h.handlingError(m, ve, useRevisedError); vh > handling {
+								validationErr = ve
+								handling = vh
+								fmsg.handling = handling
+							}
 						}
 					}
 					if handling == bgp.ERROR_HANDLING_SESSION_RESET {
